@@ -1,7 +1,7 @@
 ID = "C17"
 LEVEL = "proof"
-COQ_TARGETS = ["Props/Properties_C17.vo", "Extract/ExtractValue.vo"]
-PROPS_FILES = ["Props/Properties_C17.v"]
+COQ_TARGETS = ["Props/Properties_C17.vo", "Props/Properties_C17_total.vo", "Extract/ExtractValue.vo"]
+PROPS_FILES = ["Props/Properties_C17.v", "Props/Properties_C17_total.v"]
 RUNS = [dict(name="equal", harness="c17", driver="value", model_ml="value_model", driver_args=["c17"])]
 EXPLANATION = ("capnp.Equal is modelled step by step (coq/Value/EqualM.v: bytewise fast path, traversal-limit consumption, error "
                "and panic paths, two messages or one) over the read-side model. Theorem C17_equal_m_correct: for all messages, "
